@@ -211,6 +211,11 @@ func (v *VMValue) UnmarshalJSON(input []byte) error {
 		}
 		err := json.Unmarshal(input, &v1)
 		if err == nil {
+			for _, i := range v1.Value.List {
+				if i == nil {
+					return errors.New("值错误: 数组元素不能为 null")
+				}
+			}
 			v.Value = NewArrayValRaw(v1.Value.List).Value
 		}
 		return err
